@@ -381,6 +381,42 @@ pub func obj.get_acc() base.u32 {
 		),
 	})
 
+	add("t17_stale_state_after_note", testFile{
+		Note:         "a pub coroutine that was resumed and then ends through `yield? note` (or an error) keeps its old suspension point: the object is not disabled by a note, so the next call resumes in the middle",
+		ExpectEvents: []string{"C04:stale-coroutine-state"},
+		ExpectDiff:   true,
+		Case: mk(`
+pub status "@done"
+
+pub struct obj?(
+        log : base.u32,
+)
+
+pub func obj.go?(src: base.io_reader) {
+    var c  : base.u8
+    var st : base.status
+    this.log ~mod<<= 4
+    this.log |= 1
+    c = args.src.read_u8?()
+    this.log ~mod<<= 4
+    this.log |= 2
+    st = "@done"
+    yield? st
+    this.log ~mod<<= 4
+    this.log |= 3
+}
+
+pub func obj.get_log() base.u32 {
+    return this.log
+}
+`, []string{"get_log"},
+			call("go", rd(nil, false)),
+			call("go", rd([]byte{1}, false)),
+			call("go", rd([]byte{2}, false)),
+			call("go", rd([]byte{3}, false)),
+		),
+	})
+
 	add("t12_cgen_invalid_c", testFile{
 		Note:          "accepted by the checker, but wuffs-c fails or emits C that does not compile: a pub function returning base.bool",
 		ExpectCEvents: []string{"C11:wuffs-c-failed"},
